@@ -142,10 +142,21 @@ func x01Run(c *ctx, op string, classes [][]int, viaLayers bool) {
 	var want [][]int
 	tags := map[*geojson.Feature]int{}
 	simp := simplify.DouglasPeucker(0.5)
+	var lastF *geojson.Feature
+	var lastX x01Feat
+	var lastW, lastK int
 	for li, cl := range classes {
-		l := &mvt.Layer{Name: fmt.Sprintf("l%d", li), Version: 2, Extent: 4096}
+		// (the extent of a layer says in which units its coordinates are; the box handed to Clip is in those units already)
+		l := &mvt.Layer{Name: fmt.Sprintf("l%d", li), Version: 2, Extent: []uint32{4096, 4096, 512, 2048, 8192, 256}[c.rng.Intn(6)]}
 		var bf []x01Feat
 		var w []int
+		if op == "clip" && lastF != nil && c.rng.Intn(3) == 0 {
+			// the last feature of the layer before is a feature of this layer too (one object in two layers): each layer is
+			// processed for itself
+			l.Features = append(l.Features, lastF)
+			bf, w = append(bf, lastX), append(w, lastW)
+			classes[li] = append([]int{lastK}, cl...)
+		}
 		for _, k := range cl {
 			g := x01Geom(c, op, k)
 			f := geojson.NewFeature(g)
@@ -173,6 +184,7 @@ func x01Run(c *ctx, op string, classes [][]int, viaLayers bool) {
 			}
 			bf = append(bf, x)
 			w = append(w, lg.id(res))
+			lastF, lastX, lastW, lastK = f, x, lg.id(res), k
 		}
 		layers = append(layers, l)
 		before = append(before, bf)
@@ -276,7 +288,7 @@ func x01Pipeline(c *ctx, idx int) {
 	simp := simplify.DouglasPeucker(0.5)
 	var layers mvt.Layers
 	for li := 0; li < 1+c.rng.Intn(3); li++ {
-		l := &mvt.Layer{Name: fmt.Sprintf("l%d", li), Version: 2, Extent: 4096}
+		l := &mvt.Layer{Name: fmt.Sprintf("l%d", li), Version: 2, Extent: []uint32{4096, 512, 8192}[c.rng.Intn(3)]}
 		for j := 0; j < c.rng.Intn(9); j++ {
 			op := []string{"clip", "simplify", "removeempty"}[c.rng.Intn(3)]
 			f := geojson.NewFeature(x01Geom(c, op, c.rng.Intn(3)%(map[string]int{"clip": 3, "simplify": 3, "removeempty": 2}[op])))
